@@ -1,8 +1,8 @@
 CONSTANTS
   InitCap = 0
-  Vals = {7, 9}
+  Vals = {7, 9, 11}
   MaxCap = 100
-  Depth = 4
+  Depth = 3
 INIT Init
 NEXT Next
 VIEW View
